@@ -41,7 +41,7 @@ Definition k5_acts_reset : list act :=
     ADeliverP ].
 
 (* --- witness 2: a fetched owner object decides which single input emits key 40 *)
-Definition mkf s g := {| f_sel := s; f_label := None; f_generic := g |}.
+Definition mkf s g := {| f_sel := s; f_label := None; f_generic := g; f_suppress := None |}.
 Definition k5_progs_owner : list (N * prog) :=
   [ (10, {| p_fetches := [ {| d_id := 0; d_filter := mkf (SKeys [1]) (Some 1) |} ]; p_outs := [OIfAny 0 40 7] |});
     (20, {| p_fetches := [ {| d_id := 0; d_filter := mkf (SKeys [1]) (Some 2) |} ]; p_outs := [OIfAny 0 40 7] |}) ].
